@@ -43,6 +43,14 @@ type RunResult struct {
 // execute runs one simulation inside a fresh bubble.
 func execute(t *testing.T, eng *Engine, seed uint64, wl, sch *Tape) (res RunResult) {
 	res.Seed = seed
+	// wall-clock watchdog (outside the bubble, real time): a run that does not finish means the code under
+	// test hangs or spins; the process exits with status 3 and the driver confirms it with the same seed
+	limit := time.Duration(envInt("VERIF_RUN_WALL_S", 60)) * time.Second
+	wd := time.AfterFunc(limit, func() {
+		fmt.Fprintf(os.Stderr, "WATCHDOG: run with seed %d exceeded %s of wall clock\n", seed, limit)
+		os.Exit(3)
+	})
+	defer wd.Stop()
 	body := func(t *testing.T) {
 		s := NewSim(t, eng.Prop, seed, wl, sch)
 		if eng.MaxSteps > 0 {
@@ -172,6 +180,7 @@ func TestEngine(t *testing.T) {
 	if prop == "" {
 		t.Skip("VERIF_PROP not set")
 	}
+	debug.SetMaxStack(256 << 20) // unbounded recursion of the code under test dies fast instead of eating 1 GB
 	eng := engines[prop]
 	if eng == nil {
 		t.Fatalf("no engine for %s", prop)
